@@ -1,6 +1,7 @@
 package main
 
 import (
+	"unicode/utf8"
 	"errors"
 	"fmt"
 	"io"
@@ -771,7 +772,39 @@ func runScenario(sc *Scenario) (res *ScenarioResult) {
 		func() {
 			defer func() { pan = recover() }()
 			target := cmdAt(p, a.Path)
-			if a.Kind == "group" {
+			if a.Kind == "option" {
+				// Group.AddOption on the command's own group: a hand-built Option (fields taken from the
+				// leaf's tag, which only uses keys that map onto Option fields) bound to a fresh variable
+				f := &a.Fields[0]
+				m, terr := flags.VerifScanTag(l1dec(f.Tag))
+				if terr != nil {
+					panic("harness: bad tag for AddOption: " + terr.Error())
+				}
+				get := func(k string) string {
+					if v := m[k]; len(v) > 0 {
+						return v[0]
+					}
+					return ""
+				}
+				truthy := func(v string) bool { return !(v == "" || v == "false" || v == "no" || v == "0") }
+				o := &flags.Option{
+					Description: get("description"), LongName: get("long"), Default: m["default"],
+					EnvDefaultKey: get("env"), EnvDefaultDelim: get("env-delim"),
+					OptionalArgument: truthy(get("optional")), OptionalValue: m["optional-value"],
+					Required: truthy(get("required")), ValueName: get("value-name"), DefaultMask: get("default-mask"),
+					Choices: m["choice"], Hidden: truthy(get("hidden")),
+				}
+				if sn := get("short"); sn != "" {
+					o.ShortName, _ = utf8.DecodeRuneInString(sn)
+				}
+				pt := buildType(f.Type) // *T
+				x := reflect.New(pt.Elem())
+				if v, ok := sc.Init[strconv.Itoa(f.Fid)]; ok && v.P != nil && v.P.V != nil {
+					x = r.mkValue(pt, &v, f.Fid, f.Type)
+				}
+				r.leaves = append(r.leaves, leaf{fid: f.Fid, root: x, path: nil, spec: f.Type})
+				target.AddOption(o, x.Interface())
+			} else if a.Kind == "group" {
 				data, _ := r.newData(a.Fields)
 				var g *flags.Group
 				g, err = target.AddGroup(l1dec(a.Short), l1dec(a.Long), data)
